@@ -286,6 +286,12 @@ func c03Session(r *core.Rng, defs []ast.Node, call ast.Node) (stmts []ast.Node, 
 					ast.For{Vars: []string{"zq"}, Iters: []ast.Node{icall("fromto", il(0), il(2))}, Body: ast.Assign{Name: dst, Value: call}},
 					nm(dst)}}}
 		}},
+		{"after-a-narrow-function's-loop-in-the-same-statement", func(dst string) []ast.Node {
+			// the loop of a function with a small frame ran (and freed its context) earlier in the same statement
+			return []ast.Node{
+				ast.Assign{Name: "znarrow", Value: ast.FuncLit{Params: []string{"k"}, Body: ast.Block{Stmts: []ast.Node{ast.Assign{Name: "s", Value: il(0)}, ast.For{Vars: []string{"zi"}, Iters: []ast.Node{icall("fromto", il(0), nm("k"))}, Body: ast.Assign{Name: "s", Value: ast.Binary{Op: "+", L: nm("s"), R: nm("zi")}}}, nm("s")}}}},
+				ast.Assign{Name: dst, Value: ast.Index{X: ast.ArrayLit{Elems: []ast.Node{icall("znarrow", il(int64(r.Range(1, 4)))), call}}, I: il(1)}}}
+		}},
 		{"after-stack-growth", func(dst string) []ast.Node {
 			return []ast.Node{icall("zdeep", il(int64([]int{140, 600, 4000}[r.Intn(3)]))), ast.Assign{Name: dst, Value: call}}
 		}},
@@ -523,7 +529,7 @@ func init() {
 			{Name: "uninit", Count: countFn(300, 12000), Run: c03Uninit},
 			{Name: "depths", Count: countFn(48, 1200), Run: func(ctx *core.Ctx, idx int) core.Result { return depthCase("C03", ctx, idx) }},
 		},
-		Floors: []core.Floor{{Key: "placements_compared", Quick: 12000, Thor: 500000}, {Key: "tag:placement:", Quick: 21, Thor: 21}, {Key: "tag:function:", Quick: 12, Thor: 12}, {Key: "stack_growths", Quick: 3000, Thor: 80000}, {Key: "context_clone_reuse", Quick: 500, Thor: 15000}},
+		Floors: []core.Floor{{Key: "placements_compared", Quick: 12000, Thor: 500000}, {Key: "tag:placement:", Quick: 22, Thor: 22}, {Key: "tag:function:", Quick: 12, Thor: 12}, {Key: "stack_growths", Quick: 3000, Thor: 80000}, {Key: "context_clone_reuse", Quick: 500, Thor: 15000}},
 	})
 	core.CaseSeconds["C03/placements"] = 1
 }
